@@ -32,6 +32,11 @@ def lemireRow (q : Int) : Nat :=
 def floorLog2Pow (b : Nat) (q : Int) : Int :=
   if q ≥ 0 then (Nat.log2 (b ^ q.toNat) : Int) else ilog2Q 1 (b ^ (-q).toNat)
 
+/-- `e = ⌊log2 (num/den)⌋`, i.e. `2^e ≤ num/den < 2^(e+1)` (no search: two comparisons) -/
+def isFloorLog2Q (num den : Nat) (e : Int) : Bool :=
+  if e ≥ 0 then den * 2 ^ e.toNat ≤ num && num < den * 2 ^ (e.toNat + 1)
+  else den ≤ num * 2 ^ (-e).toNat && num * 2 ^ (-e).toNat < 2 * den
+
 /-- value of a little-endian limb list -/
 def limbsVal (bits : Nat) (limbs : List Nat) : Nat :=
   limbs.foldr (fun l acc => l + 2 ^ bits * acc) 0
